@@ -152,7 +152,8 @@ CLAIMED = {
             'identity comparisons and isTrue / isFalse / isNot, so their behaviour is a function of a finite set of argument patterns; every pattern over '
             '{true, false, x, (not x), y, (not y), z, (not z)} (all pairs / triples; lists up to length 3 for and/or under three creation orders) is pushed through the '
             'constructor\'s decision structure by an abstract evaluator over the mini-AST and the returned term shape is compared with the operator by a truth table '
-            '(2360 patterns). Arithmetic constructors, equality on other sorts, distinct, select/store are value-level and not decided.',
+            '(2360 patterns); Logic::mkDistinct is evaluated the same way on arguments of a value sort (two constants, two variables, lists up to length 4). Arithmetic constructors, '
+            'equality on other sorts and select/store are value-level and not decided.',
             'static analysis: abstract evaluation of the constructors\' decision structure over a finite domain of argument patterns + truth table (no code is compiled or run)', ''),
     'C15': ('other',
             'Static: (1) UB-obligation engine - every compiler-inserted sanitizer obligation (signed overflow, narrowing, sign change, float cast) in FastRational.h/.cc is '
